@@ -205,8 +205,13 @@ func signature(res *Result, rec *Record) (string, bool) {
 
 // samplingEngine: every percentage on a long matched stream; the invariant at every prefix; counters exact.
 func samplingEngine(c *vkit.Ctx, op Opaque) {
-	const stream = 1000
 	for pct := 1; pct <= 100; pct++ {
+		// "at every prefix of the matched stream": a handful of percentages run far beyond any 16- or 17-bit count of matched
+		// records (seeded c15-s10 restarted its two counts every 65 536 matches and lost the rounding remainder each time)
+		stream := 1000
+		if pct == 1 || pct == 33 || pct == 60 || pct == 77 || pct == 99 {
+			stream = 140000
+		}
 		p := prog(&Step{Type: "drop", Match: []Cond{{Field: "level", Op: "str-start", Arg: "w"}}, Percentage: pct})
 		im, cerr, pan := BuildImpl(schemaFields, p.YAML())
 		if cerr != nil || pan != nil {
@@ -252,7 +257,7 @@ func samplingEngine(c *vkit.Ctx, op Opaque) {
 			_ = res
 		}
 	}
-	c.Exhaustive("sampled drop: every percentage 1..100, every prefix of the first 1000 matched records of one stream (the decision depends only on the two running counts)")
+	c.Exhaustive("sampled drop: every percentage 1..100, every prefix of the first 1000 matched records of one stream (140 000 for five percentages; the decision depends only on the two running counts)")
 }
 
 // ---------------------------------------------------------------------------------------------- match engine
